@@ -450,6 +450,62 @@ def fwMetas (ix : Ix) : List Meta :=
 
 def fwProgram (ix : Ix) : Key := progId ix.tag.prog
 
+/-! ## The CPI build (`star_frame/src/cpi.rs`: `Program::cpi(data, …CpiAccounts, None).invoke()`)
+
+The on-chain twin of the client build. The caller supplies one `AccountInfo` per slot (a `Vec` for
+`Rest<_>`; `Sysvar<_>` / `Program<_>` slots have no default here); `CpiAccountSet::write_account_metas` writes,
+per slot, the info's key with the slot's DECLARED flags (the hand-written impl for a bare `AccountInfo`:
+`false, false`; the derived single-account-set impl: `Self::meta()`), never the info's runtime
+`is_signer` / `is_writable`; the data is `bytes_of(&DISCRIMINANT) ++ borsh(payload)` again (a second copy of
+that code), the program id `P::ID` (no override). -/
+
+/-- A native `AccountInfo` as far as the build can see it: its key and its runtime privileges. -/
+structure Info where
+  key : Key
+  isSigner : Bool
+  isWritable : Bool
+  deriving DecidableEq, Repr
+
+/-- `…CpiAccounts` field values. -/
+inductive CVal where
+  | info (i : Info) | list (is : List Info)
+  deriving Repr
+
+/-- Attach runtime flags to a list of keys (`rt name index`). -/
+def infosOf (rt : AName → Nat → Bool × Bool) (n : AName) : List Key → Nat → List Info
+  | [], _ => []
+  | k :: ks, i => ⟨k, (rt n i).1, (rt n i).2⟩ :: infosOf rt n ks (i + 1)
+
+/-- The `…CpiAccounts` value of one slot for the same (well-typed) client input: an info with the same key —
+for a `Sysvar<Rent>` / `Program<_>` slot the client left out, the canonical account — and ARBITRARY runtime
+flags `rt`. -/
+def toCpiVal (rt : AName → Nat → Bool × Bool) : AcctTy → AName → Option AVal → Option CVal
+  | .info _ _, n, some (.key k) => some (.info ⟨k, (rt n 0).1, (rt n 0).2⟩)
+  | .sysvarRent, n, some (.opt o) => some (.info ⟨o.getD Generated.rentSysvarId, (rt n 0).1, (rt n 0).2⟩)
+  | .program p, n, some (.opt o) => some (.info ⟨o.getD (progId p), (rt n 0).1, (rt n 0).2⟩)
+  | .rest _ _, n, some (.list ks) => some (.list (infosOf rt n ks 0))
+  | _, _, _ => none
+
+/-- `CpiAccountSet::write_account_metas` of one account-struct field. -/
+def cpiMetasOf : AcctTy → Option CVal → List Meta
+  | .info s w, some (.info i) => [⟨i.key, s, w⟩]
+  | .sysvarRent, some (.info i) => [⟨i.key, false, false⟩]
+  | .program _, some (.info i) => [⟨i.key, false, false⟩]
+  | .rest s w, some (.list is) => is.map (fun i => ⟨i.key, s, w⟩)
+  | _, _ => []
+
+/-- The derived `write_account_metas` of the account struct: fields in declared order. -/
+def cpiMetas (rt : AName → Nat → Bool × Bool) (ix : Ix) : List Meta :=
+  ix.tag.accounts.flatMap (fun a => cpiMetasOf a.2 (toCpiVal rt a.2 a.1 (assoc a.1 (fwAccts ix))))
+
+/-- `CpiBuilder::invoke_signed`: `data.extend_from_slice(bytes_of(&Ix::DISCRIMINANT)); self.data.serialize(&mut data)`. -/
+def cpiData (ix : Ix) : List Nat :=
+  leN ix.tag.reprBytes ix.tag.disc
+    ++ ix.tag.fields.flatMap (fun f => borsh f.2 (assoc f.1 (fwArgs ix)))
+
+/-- `CpiProgramInput::pubkey(None)` = `P::ID`. -/
+def cpiProgram (ix : Ix) : Key := progId ix.tag.prog
+
 /-! ## ATA derivation input -/
 
 /-- What `AssociatedToken::find_address_with_bump(wallet, mint)` passes to
